@@ -185,7 +185,12 @@ where
                 return None;
             }
             State::Parsing => {
-                self.increment_record();
+                // If the previous call failed while the buffer was being enlarged
+                // (`Error::BufferLimit`), the current record is still incomplete
+                // and the search has to be resumed instead.
+                if self.incomplete_pos.is_none() {
+                    self.increment_record();
+                }
             }
         };
 
@@ -243,7 +248,11 @@ where
             State::Parsing => {
                 // next() was previously called, the current record has
                 // already been returned -> start parsing the next one
-                self.increment_record();
+                // (unless next() failed with `Error::BufferLimit`: then the
+                // search of the incomplete record is resumed)
+                if self.incomplete_pos.is_none() {
+                    self.increment_record();
+                }
                 self.state = State::Positioned;
             }
             State::Positioned => {
